@@ -1,5 +1,6 @@
 SPECIFICATION Spec
 CONSTANTS
+  DepthLimit = 10000
   MaxLen = 6
   MaxWS = 1
   Emit = TRUE
